@@ -79,6 +79,15 @@ def program_of(events):
     one opened for writing; `mkstemp` is the O_EXCL creation of that name (the last one before the write)."""
     written = [e["name"] for e in events if e["kind"] == "open" and isinstance(e["mode"], str) and
                any(c in e["mode"] for c in "wxa+")]
+    via_fd = False
+    if not written:
+        # the file may be written through the descriptor mkstemp returned (os.fdopen(fd, "w")): no open-by-name event
+        # exists then; the intermediate file is the mkstemp'd name that is later read back or unlinked, and its creation
+        # stands for the write as well
+        made = [e["name"] for e in events if e["kind"] == "mkstemp"]
+        later = set(e["name"] for e in events if e["kind"] in ("open", "unlink"))
+        written = [n for n in made if n in later]
+        via_fd = True
     if not written:
         return []
     name = written[0]
@@ -87,6 +96,8 @@ def program_of(events):
               [e for e in events if e["kind"] == "mkstemp" and e["name"] == name]
     if created:
         ops.append((created[-1]["t"], "mkstemp", name, created[-1]["dir"], None))
+        if via_fd:
+            ops.append((created[-1]["t"] + 1, "write", name, sorted(set(created[-1]["dir"]) | {name}), None))
     for e in events:
         if e["name"] != name and e["kind"] != "done":
             continue
